@@ -706,10 +706,130 @@ theorem roundtrip_configsX : ∀ c ∈ Facts.fixedConfigs, ∀ raw : Int,
     exact ⟨fromStrX128_ok h1, fromStrX128_ok h2, fromStrX128_ok h3, fromStrX128_ok h4,
       fromStrX128_ok (s := unquote _) h5, fromStrX128_ok (s := unquote _) h6⟩
 
+/-- **the dispatch keeps the special values away from `From`.**  The model's `ParseFloat` (`parseFloatAny`) contains
+    `strconv.special`: "nan", "inf", "infinity" (any case, the infinities with a sign) ARE parsed to a NaN / an infinity
+    without an error, exactly as the code's `ParseFloat` does, and `From[T]` of them is the f128 panic resp. the f64
+    implementation-defined conversion (`special_values_would_reach_From`).  What keeps them away is proved, not built in: a
+    special value that is the whole text contains no e/E, so on every text the dispatch sends to `ParseFloat` the result comes
+    from `readFloat` — finite, or an error (overflow to ±Inf is `ErrRange`) -/
+theorem special_needs_no_exponent (t : Str) :
+    (∀ x n, special t = some (x, n) → n = t.length → hasExp t = false) ∧
+    (hasExp t = true → ∀ x, parseFloatAny t = some x → special t = none ∧ readFloatAny t = some x ∧ ∃ s m e, x = .fin s m e) :=
+  ⟨fun x n h hn => special_whole_noExp t x n h hn,
+   fun he x h => ⟨(parseFloatAny_exp t he x h).1, (parseFloatAny_exp t he x h).2, parseFloatAny_fin t he x h⟩⟩
+
+/-- CONTRAST — **what the dispatch prevents (the defect of a dispatch on more letters than e/E, seed own-c04-29)**: handed to the
+    branch, "nan" panics in f128, "inf" meets the implementation-defined conversion in f64 and is 0 in f128, "+Infinity"
+    likewise; "infinit" counts as "inf" followed by bytes and "+nan" is no special value: syntax errors; "1e999" is a range
+    error; "nane5" / "infe" (special word, then bytes) are syntax errors -/
+theorem special_values_would_reach_From :
+    expBranch128 1 10 [110, 97, 110] = .panic ∧ expBranch128 1 10 [78, 97, 78] = .panic ∧
+    expBranch64 10 [105, 110, 102] = .implDefined ∧ expBranch128 1 10 [105, 110, 102] = .ok 0 ∧
+    expBranch64 10 [43, 73, 110, 102, 105, 110, 105, 116, 121] = .implDefined ∧
+    expBranch64 10 [105, 110, 102, 105, 110, 105, 116] = .err ∧ expBranch128 1 10 [43, 110, 97, 110] = .err ∧
+    parseFloatAny [49, 101, 57, 57, 57] = none ∧ parseFloatAny [110, 97, 110, 101, 53] = none ∧
+    parseFloatAny [105, 110, 102, 101] = none := by decide +kernel
+
+/-- the four renderings the property names: String, StringWithSign, Comma, CommaWithSign -/
+def renderings (mult raw : Int) : List Str := [toStr mult raw, toStrSign mult raw, comma mult raw, commaSign mult raw]
+
+/-- no rendering contains a double quote (bytes: digits, '-', '+', '.', ','), so `Unquote` leaves the bare forms alone -/
+theorem renderings_no_quote (p : Nat) (raw : Int) : ∀ f ∈ renderings (10^p) raw, ∀ c ∈ f, c ≠ 34 := by
+  have hts : ∀ c ∈ toStr (10^p) raw, c ≠ 34 ∧ c ≠ 44 := by
+    obtain ⟨_, hip, _, hfpd, _, _, _⟩ := toStr_canonical p raw
+    intro c hc
+    rw [toStr_decomp] at hc
+    rcases List.mem_append.mp hc with h | h
+    · rcases List.mem_append.mp h with h | h
+      · split at h <;> simp at h; omega
+      · have := isDigit_bounds c (hip c h); omega
+    · by_cases h0 : raw.tmod (10^p) = 0
+      · rw [if_pos h0] at h; simp at h
+      · rw [if_neg h0] at h hfpd
+        rcases List.mem_cons.mp h with h' | h'
+        · omega
+        · have := isDigit_bounds c (hfpd c h'); omega
+  have hcm : ∀ c ∈ comma (10^p) raw, c ≠ 34 := by
+    intro c hc h34
+    have : c ∈ stripCommas (comma (10^p) raw) := by
+      unfold stripCommas
+      rw [List.mem_filter]
+      exact ⟨hc, by simp; omega⟩
+    rw [comma_only_adds_commas] at this
+    exact (hts c this).1 h34
+  intro f hf c hc
+  simp only [renderings, List.mem_cons, List.mem_nil_iff, or_false] at hf
+  rcases hf with rfl | rfl | rfl | rfl
+  · exact (hts c hc).1
+  · unfold toStrSign at hc
+    split at hc
+    · rcases List.mem_cons.mp hc with h | h
+      · omega
+      · exact (hts c h).1
+    · exact (hts c hc).1
+  · exact hcm c hc
+  · unfold commaSign at hc
+    split at hc
+    · rcases List.mem_cons.mp hc with h | h
+      · omega
+      · exact hcm c h
+    · exact hcm c hc
+
+theorem unquote_no_quote (s : Str) (h : ∀ c ∈ s, c ≠ 34) : unquote s = s := by
+  apply FixedText.unquote_bare
+  left
+  cases s with
+  | nil => simp
+  | cons c t => simp; exact h c (by simp)
+
+/-- **the Unmarshal round trip for all eight forms the property names**: every rendering (String, StringWithSign, Comma,
+    CommaWithSign), bare or inside one pair of double quotes, of every value of both types in every configuration of the
+    table goes back to the identical value through the executed `UnmarshalText` / `UnmarshalJSON` (`unmarshalX64/128`) and,
+    bare, through the executed `FromString` -/
+theorem unmarshal_all_forms : ∀ c ∈ Facts.fixedConfigs, ∀ raw : Int, ∀ f ∈ renderings c.2 raw,
+    (fits64 raw = true → fromStrX64 c.1 c.2 f = .ok raw ∧ unmarshalX64 c.1 c.2 f = .ok raw ∧
+      unmarshalX64 c.1 c.2 (34 :: (f ++ [34])) = .ok raw) ∧
+    (fits128 raw = true → fromStrX128 c.1 c.2 f = .ok raw ∧ unmarshalX128 c.1 c.2 f = .ok raw ∧
+      unmarshalX128 c.1 c.2 (34 :: (f ++ [34])) = .ok raw) := by
+  intro c hc raw f hf
+  obtain ⟨e, _, _⟩ := configs_pow10 c hc
+  have hnq : unquote f = f := by
+    apply unquote_no_quote
+    have := renderings_no_quote c.1 raw
+    rw [← e] at this
+    exact this f hf
+  have hq : unquote (34 :: (f ++ [34])) = f := FixedText.unquote_quoted f
+  obtain ⟨h64, h128⟩ := roundtrip_configsX c hc raw
+  unfold unmarshalX64 unmarshalX128
+  rw [hnq, hq]
+  simp only [renderings, List.mem_cons, List.mem_nil_iff, or_false] at hf
+  constructor
+  · intro hr
+    obtain ⟨a1, a2, a3, a4, _, _⟩ := h64 hr
+    rcases hf with rfl | rfl | rfl | rfl
+    · exact ⟨a1, a1, a1⟩
+    · exact ⟨a2, a2, a2⟩
+    · exact ⟨a3, a3, a3⟩
+    · exact ⟨a4, a4, a4⟩
+  · intro hr
+    obtain ⟨a1, a2, a3, a4, _, _⟩ := h128 hr
+    rw [toStr128_eq] at a1
+    rcases hf with rfl | rfl | rfl | rfl
+    · exact ⟨a1, a1, a1⟩
+    · exact ⟨a2, a2, a2⟩
+    · exact ⟨a3, a3, a3⟩
+    · exact ⟨a4, a4, a4⟩
+
+/-- non-vacuity: the eight texts for −1234.5 (one place): the quoted CommaWithSign form is "\"-1,234.5\"" -/
+example : renderings 10 (-12345) = [[45,49,50,51,52,46,53], [45,49,50,51,52,46,53], [45,49,44,50,51,52,46,53], [45,49,44,50,51,52,46,53]] ∧
+    unmarshalX64 1 10 (34 :: ([45,49,44,50,51,52,46,53] ++ [34])) = .ok (-12345) ∧
+    unmarshalX128 1 10 [43,49,44,50,51,52,46,53] = .ok 12345 := by decide +kernel
+
 /-- **no input string makes it panic — the exponent branch included.**  The f128 branch has a panicking operation
-    (`big.Float.SetFloat64` of a NaN, outcome `ResX.panic` of the model); it is unreachable: `ParseFloat` on a text with
-    e/E returns a finite float or an error, never a NaN ("nan" has no e, "nane5" is a syntax error).  Holds for every
-    byte string, every number of places, every multiplier, for `FromString` and `UnmarshalText`/`UnmarshalJSON`. -/
+    (`big.Float.SetFloat64` of a NaN, outcome `ResX.panic`), and the model's `ParseFloat` does return a NaN for "nan"
+    (`special_values_would_reach_From`); the outcome is unreachable from `FromString` because the branch is entered only with
+    a text containing e/E (`fromString_exp_iff`) and such a text never is a special value (`special_needs_no_exponent`).
+    Holds for every byte string, every number of places, every multiplier, for `FromString` and `UnmarshalText`/`UnmarshalJSON`. -/
 theorem fromString_never_panics (p : Nat) (m : Int) (s : Str) :
     fromStrX64 p m s ≠ .panic ∧ fromStrX128 p m s ≠ .panic ∧ unmarshalX64 p m s ≠ .panic ∧ unmarshalX128 p m s ≠ .panic :=
   ⟨fromStrX64_no_panic p m s, fromStrX128_no_panic p m s, fromStrX64_no_panic p m _, fromStrX128_no_panic p m _⟩
@@ -720,10 +840,6 @@ theorem fromString_never_panics (p : Nat) (m : Int) (s : Str) :
 theorem fromStringX_total (p : Nat) (m : Int) (s : Str) (v : Int) :
     (fromStrX64 p m s = .ok v → fits64 v = true) ∧ (fromStrX128 p m s = .ok v → fits128 v = true) :=
   ⟨fromStrX64_fits p m s v, fromStrX128_fits p m s v⟩
-
-/-- CONTRAST: the panic is a real possibility of `From[T](float64)` — the f128 conversion of a NaN is the `none` of the C03
-    model; only the shape of the branch (a NaN cannot come out of `ParseFloat` there) keeps it away -/
-example : Fixed.F128.fromFloat 10 1 .nan = none := rfl
 
 /-- **the outcomes of the executed `FromString`, every byte string**: f64 returns a value, an error, or — only in the
     exponent branch — meets Go's implementation-defined float → int64 conversion; f128 returns a value or an error.
@@ -752,28 +868,36 @@ theorem fromStringX_outcomes (p : Nat) (m : Int) (s : Str) :
     | implDefined => exact absurd h (fromStrX128_no_impl p m s)
 
 /-- **f64, implementation-defined conversion**: `FromString` of an exponent text reaches Go's implementation-defined
-    float → int64 conversion only with a float whose product with the multiplier exceeds 2^62 -/
-theorem exp_implDefined_needs_large : ∀ c ∈ Facts.fixedConfigs, ∀ t : Str, expBranch64 c.2 t = .implDefined →
+    float → int64 conversion only with a FINITE float whose product with the multiplier exceeds 2^62 (one direction only:
+    the exact threshold 2^63 and the converse are not proved; the harness decides `impl` itself and the model is compared
+    with it) -/
+theorem exp_implDefined_needs_large : ∀ c ∈ Facts.fixedConfigs, ∀ t : Str, hasExp t = true →
+    expBranch64 c.2 t = .implDefined →
     ∃ s mx ex, parseFloatAny t = some (.fin s mx ex) ∧ (2 : ℚ) ^ 62 < (mx : ℚ) * (2 : ℚ) ^ ex * c.2 :=
-  fun c hc t h => expBranch64_impl c.2 ⟨c, hc, rfl⟩ t h
+  fun c hc t he h => expBranch64_impl c.2 ⟨c, hc, rfl⟩ t he h
 
-/-- **f64, exponent literal**: for a well-formed literal `±N·10^(E−k)` of normal float magnitude, a defined result lies
-    within `1 + |value·mult| / 2^51` of the exact scaled value `±N·10^(E−k)·mult` -/
+/-- **f64, exponent literal**: for a well-formed literal of normal float magnitude, a defined result lies within
+    `1 + |value·mult| / 2^51` of the scaled value `±N·10^(E−k)·mult`, where `E` is the exponent AS `strconv.readFloat` READS IT
+    (`expAcc`: the accumulator stops growing at 10000, so `E` is the written exponent whenever that is below 10000 — the
+    bound is faithful to Go, and is about the exact value of the literal only for such exponents; corpus
+    `parse.expcap` pins the constant).  `longMantissa t = false` is not used by the proof: it marks the domain on which the
+    model's `ParseFloat` is tied to strconv's (beyond 800 integer digits strconv's slow path misplaces the decimal point; the
+    model does not, and the correspondence run prints `long` on both sides there) -/
 theorem exp_literal_bound64 : ∀ c ∈ Facts.fixedConfigs, ∀ (t : Str) (neg : Bool) (N k : Nat) (E : Int) (r : Int),
-    outsideExp t = false → parseExpLit? t = some (neg, N, k, E) → N ≠ 0 →
+    longMantissa t = false → outsideExp t = false → parseExpLit? t = some (neg, N, k, E) → N ≠ 0 →
     (2 : ℚ) ^ (-1022 : ℤ) ≤ (N : ℚ) * (10 : ℚ) ^ (E - k) → (N : ℚ) * (10 : ℚ) ^ (E - k) < (2 : ℚ) ^ (1023 : ℤ) →
     expBranch64 c.2 t = .ok r →
     |(r : ℚ) - expRat neg N k E * c.2| < 1 + (N : ℚ) * (10 : ℚ) ^ (E - k) * c.2 / 2 ^ 51 :=
-  fun c hc t neg N k E r ho hl hN hlo hhi h => expBranch64_val c.2 ⟨c, hc, rfl⟩ t neg N k E r ho hl hN hlo hhi h
+  fun c hc t neg N k E r _ ho hl hN hlo hhi h => expBranch64_val c.2 ⟨c, hc, rfl⟩ t neg N k E r ho hl hN hlo hhi h
 
 /-- **f128, exponent literal**: an unsaturated result, read as a number, lies within 19/20 of a raw unit plus the
-    `ParseFloat` rounding (relative 2^-53) of the exact value -/
+    `ParseFloat` rounding (relative 2^-53) of the value `±N·10^(E−k)` (`E` as read by `strconv.readFloat`, see above) -/
 theorem exp_literal_bound128 : ∀ c ∈ Facts.fixedConfigs, ∀ (t : Str) (neg : Bool) (N k : Nat) (E : Int) (r : Int),
-    outsideExp t = false → parseExpLit? t = some (neg, N, k, E) → N ≠ 0 →
+    longMantissa t = false → outsideExp t = false → parseExpLit? t = some (neg, N, k, E) → N ≠ 0 →
     (2 : ℚ) ^ (-1022 : ℤ) ≤ (N : ℚ) * (10 : ℚ) ^ (E - k) → (N : ℚ) * (10 : ℚ) ^ (E - k) < (2 : ℚ) ^ (1023 : ℤ) →
     expBranch128 c.1 c.2 t = .ok r → Fixed.F128.minRaw < r → r < Fixed.F128.maxRaw →
     |Fixed.Rat.value c.2 r - expRat neg N k E| ≤ 19 / 20 / (c.2 : ℚ) + (N : ℚ) * (10 : ℚ) ^ (E - k) / 2 ^ 53 :=
-  fun c hc t neg N k E r ho hl hN hlo hhi h h1 h2 => expBranch128_val c hc t neg N k E r ho hl hN hlo hhi h h1 h2
+  fun c hc t neg N k E r _ ho hl hN hlo hhi h h1 h2 => expBranch128_val c hc t neg N k E r ho hl hN hlo hhi h h1 h2
 
 /-- zero mantissa (`0e5`, `-0.00E-7`, `+0e99999`): the value 0 in both types, every configuration -/
 theorem exp_literal_zero : ∀ c ∈ Facts.fixedConfigs, ∀ (t : Str) (neg : Bool) (k : Nat) (E : Int),
@@ -781,11 +905,15 @@ theorem exp_literal_zero : ∀ c ∈ Facts.fixedConfigs, ∀ (t : Str) (neg : Bo
     expBranch64 c.2 t = .ok 0 ∧ expBranch128 c.1 c.2 t = .ok 0 :=
   fun c hc t neg k E hl ho => expBranch_zero c hc t neg k E hl ho
 
-/-- non-vacuity of the literal hypotheses: "1.5e3" reads as N = 15, k = 1, E = 3 and gives 1500 (raw 150000 with two
-    places) in both types; "-0e5" has a zero mantissa -/
-example : parseExpLit? [49, 46, 53, 101, 51] = some (false, 15, 1, 3) ∧
+/-- non-vacuity of the literal hypotheses: "1.5e3" is a plain exponent text (`outsideExp = false`), reads as N = 15, k = 1,
+    E = 3, and the branch itself gives 1500 (raw 150000 with two places, far from saturation) in both types; "-0e5" has a
+    zero mantissa; the exponent accumulator: "1e10005" is read with E = 10005, "1e100000" with E = 10000 -/
+example : longMantissa [49, 46, 53, 101, 51] = false ∧ outsideExp [49, 46, 53, 101, 51] = false ∧ parseExpLit? [49, 46, 53, 101, 51] = some (false, 15, 1, 3) ∧
+    expBranch64 100 [49, 46, 53, 101, 51] = .ok 150000 ∧ expBranch128 2 100 [49, 46, 53, 101, 51] = .ok 150000 ∧
     fromStrX64 2 100 [49, 46, 53, 101, 51] = .ok 150000 ∧ fromStrX128 2 100 [49, 46, 53, 101, 51] = .ok 150000 ∧
-    parseExpLit? [45, 48, 101, 53] = some (true, 0, 0, 5) := by decide +kernel
+    parseExpLit? [45, 48, 101, 53] = some (true, 0, 0, 5) ∧
+    parseExpLit? [49, 101, 49, 48, 48, 48, 53] = some (false, 1, 0, 10005) ∧
+    parseExpLit? [49, 101, 49, 48, 48, 48, 48, 48] = some (false, 1, 0, 10000) := by decide +kernel
 
 /-- the other two grammars of `ParseFloat`, executed: "1_0e1" (underscore between digits) is 100, "1_e1" and "_1e1" are
     syntax errors; "0x1ep3" is the hexadecimal float 0x1e·2^3 = 240 (the 'e' is a digit), "0xe" lacks the mandatory
